@@ -29,6 +29,8 @@ def domain(tier):
 def cases(tier, seed):
     depth = 5 if tier == 'thorough' else 4
     hists = [h for n in range(depth + 1) for h in itertools.product(range(3), repeat=n)]
+    # letter 3 = the handler's generator raises EventHandlingError at that point (only as last letter)
+    hists += [h + (3,) for n in range(depth) for h in itertools.product(range(3), repeat=n)]
     for entry in ('qr', 'mwl', 'c_find'):
         for h in hists:
             for ti in range(3):
@@ -43,12 +45,18 @@ def cases(tier, seed):
 
 
 def _server_ae(ts, script, seen):
-    from pynetdicom2 import applicationentity, sopclass
+    from pynetdicom2 import applicationentity, sopclass, exceptions
 
     class FindAE(applicationentity.AE):
         def on_receive_find(self, context, ds):
             seen.append((context, ds))
-            return iter(script)
+
+            def gen():
+                for item in script:
+                    if item == 'EHE':
+                        raise exceptions.EventHandlingError('handler failed while producing matches')
+                    yield item
+            return gen()
     return assoc.make_ae('SCP', [ts], 65536, [sopclass.qr_find_scp, sopclass.modality_work_list_scp], cls=FindAE)
 
 
@@ -88,10 +96,14 @@ def run_case(case):
         if list(scu.dul.inbox) != [sentinel] and not viol:
             viol.append((sig + ':queue', '%d messages left/consumed beyond the final response (%s)' % (len(scu.dul.inbox), where)))
         return {'viol': viol, 'case': case if viol else None, 'key': (entry, tuple(case['pending']), case['final'])}
-    script = [(dsgen.make(ALPHA[i][0], n), statuses.Status(ALPHA[i][1], None)) for n, i in enumerate(case['hist'])]
-    script_int = [(dsgen.make(ALPHA[i][0], n), ALPHA[i][1]) for n, i in enumerate(case['hist'])]
+    fails = bool(case['hist']) and case['hist'][-1] == 3
+    hist = case['hist'][:-1] if fails else case['hist']
+    script = [(dsgen.make(ALPHA[i][0], n), statuses.Status(ALPHA[i][1], None)) for n, i in enumerate(hist)]
+    script_int = [(dsgen.make(ALPHA[i][0], n), ALPHA[i][1]) for n, i in enumerate(hist)]
+    if fails:
+        script.append('EHE')
     seen = []
-    sae = _server_ae(ts, script if len(case['hist']) % 2 else script_int, seen)
+    sae = _server_ae(ts, script if (len(case['hist']) % 2 or fails) else script_int, seen)
     query = dsgen.make(case['query'])
     sop = MWL if entry == 'mwl' else PATIENT_FIND
     try:
@@ -129,6 +141,8 @@ def run_case(case):
             [('%d bytes' % len(d) if d else None, '%04X' % s) for d, s, _ in body], [('%d bytes' % len(d), '%04X' % s) for d, s in exp], where)))
     elif not all(p for _, _, p in body):
         viol.append((sig + ':pending-flag', 'a match was not classified pending (%s)' % where))
+    if fails and len(tail) == 1 and not got[-1][1].is_failure:
+        viol.append((sig + ':final-after-handler-error', 'handler raised EventHandlingError but the final status is %s (%s)' % (got[-1][1], where)))
     if len(tail) != 1 or tail[0][2] or tail[0][0] is not None:
         viol.append((sig + ':final', 'after the matches the SCU yielded %r (expected exactly one non-pending response without data set) (%s)' % (
             [(bool(d), '%04X' % s, p) for d, s, p in tail], where)))
